@@ -192,10 +192,19 @@ fn get_files(ctx: &mut StaticsContext, roots: &[&str]) -> Result<Vec<Rc<FileAst>
             }
             Ok(main_file_data) => main_file_data,
         };
-        // if main file is named "prelude.abra", it gets skipped
-        // TODO: add an error message if user names the main file prelude.abra?
+        // the built-in prelude is always loaded under this path (below), so the prelude itself as
+        // main file is skipped, and any other file at that path cannot be loaded at all
         if main_file_data.absolute_path == prelude_file_data.absolute_path {
-            continue;
+            if main_file_data.source == prelude_file_data.source {
+                continue;
+            }
+            return Err(ErrorSummary {
+                msg: format!(
+                    "`{}` cannot be used as a main file: `prelude.abra` is the name of the built-in prelude. Rename the file.",
+                    main_file_data.absolute_path.display()
+                ),
+                more: None,
+            });
         }
         visited.insert(main_file_data.absolute_path.clone());
         let id = ctx.file_db.add(main_file_data);
